@@ -24,7 +24,7 @@ def run(tier, seed, replay=None):
         trans += s2
         notes += n2
     v = vlib.Verdict(PROP)
-    st = rx.validate_traces(PROP, v, ["A", "B", "F"], 250 if quick else 2500, seed, 0,
+    st = rx.validate_traces(PROP, v, ["A", "B", "F", "C", "D"], 250 if quick else 2500, seed, 0,
                             need_cov=("arm/true", "inv.mark/true") if not quick else ())
     rc = v.finish()
     vlib.write_evidence(PROP, tier, seed, "model_checking", {
